@@ -10,7 +10,8 @@ CLAIMS = {
              "client handlers deliver an outcome iff they enter a terminal state and at most once (effect summaries through helper calls); "
              "terminal states are final, stop the timer, unregister the transaction and release device info; every waiting state has a configured timeout and a dispatched handler; "
              "retries are counted against numberOfApduRetries; IOCB completion/abort is idempotent and advances the queue. "
-             "Not a proof of exactly-once delivery under loss/reordering, which quantifies over runtime histories.",
+             "Not a proof of exactly-once delivery under loss/reordering, which quantifies over runtime histories."
+             " Also decided: the IOCB's own timeout is re-armed without leaving the previous task scheduled; timer helpers may delegate to each other.",
         technique="path enumeration + typestate/effect summaries + guard value-sets over the AST",
         note=_NOTE),
 }
@@ -20,19 +21,22 @@ CLAIMS.update({
         text="Decided for every one of the ~230 sequence/choice tables and 58 registered PDUs of the current source: tables are well-formed for the generic codec, "
              "LL(1)-deterministic against the decoder's real dispatch (FIRST sets), context numbers unique and ascending, registries complete and numbered as the service-choice enumerations say, "
              "the generic Sequence/Choice encode and decode agree branch by branch on head-tag class/number and open/close pairing (path-sensitive), trailing data is refused, "
-             "and wire signatures / enumeration numbers have not drifted from the reviewed reference. Octet equality with Annex F and value equality after decode are runtime quantities and are not claimed.",
+             "and wire signatures / enumeration numbers have not drifted from the reviewed reference. Octet equality with Annex F and value equality after decode are runtime quantities and are not claimed."
+             " Also decided: NameValue's hand-written decoder consumes and stores a present value on every feasible path (a Date becomes a DateTime only before a Time); no arm of the wire coders' class dispatch is shadowed by an earlier arm for a base class (MRO); APCISequence encodes into / decodes from a tag list created in that very call.",
         technique="AST table evaluation (schema/LL(1) analysis) + path analysis of the generic interpreter + frozen wire-signature reference",
         note=_NOTE),
     "C05": dict(
         text="Structural necessary conditions of segmented transfer decided on all paths: one stride for counting and slicing, modulo-256 arithmetic on every sequence-number expression, "
              "flags/window field of each segment (finite-domain evaluation of the stored expressions), in-order guard dominating append_segment with negative ack otherwise, delivery only after the last segment, "
-             "window-bounded bursts, None-typestate of the window size in retransmission handlers, and sequence-number-vs-index kinds. Payload equality under arbitrary fault patterns is not claimed.",
+             "window-bounded bursts, None-typestate of the window size in retransmission handlers, and sequence-number-vs-index kinds. Payload equality under arbitrary fault patterns is not claimed."
+             " Also decided: a lost reply makes the client hand the whole saved request to indication() again (not segment 0 alone); a duplicated segment-ack is ignored while the confirmation is awaited (the same duplicate one state later is known finding KF-33).",
         technique="path enumeration + guard value-sets + finite-domain expression evaluation + field typestate",
         note=_NOTE),
     "C10": dict(
         text="Reply discipline decided structurally: the two request dispatchers convert every Reject/Abort/Execution/other failure they catch into exactly one reply with the request's context (abstract walk over all paths), "
              "every confirmed-service handler replies exactly once per normal path (effect summaries), handler names match registered request classes, every error literal is a member of ErrorClass/ErrorCode, "
-             "and deferred calls are isolated from each other. Absence of residue after arbitrary garbage sequences is not claimed.",
+             "and deferred calls are isolated from each other. Absence of residue after arbitrary garbage sequences is not claimed."
+             " Also decided: implicit refusals of the header code tables (a table shorter than the field's value range raises IndexError) count as refusals that ServerSSM.idle must answer.",
         technique="path enumeration with a small abstract state + effect summaries + registry/enumeration table agreement",
         note=_NOTE),
     "C11": dict(
@@ -42,12 +46,14 @@ CLAIMS.update({
         note=_NOTE),
     "C12": dict(
         text="Capability decision tables of ClientSSM.indication / ServerSSM.confirmation / idle / await_confirmation are enumerated over all combinations of own and peer segmentation support, max-segments and segment counts and compared with the standard's outcome (send or the matching abort); "
-             "segment size is bounded by every limit it is derived from; peer limits are taken from the request header and I-Am, a record learned from an I-Am is stored under both cache keys and the state machines acquire it with a key of the kind acquire() accepts; window negotiation is min(proposed, own) and one burst asks for exactly actualWindowSize consecutive segments (evaluated from the loop, whatever its spelling). Header allowance and window range checks are known findings. Frame lengths for concrete payloads are not claimed.",
+             "segment size is bounded by every limit it is derived from; peer limits are taken from the request header and I-Am, a record learned from an I-Am is stored under both cache keys and the state machines acquire it with a key of the kind acquire() accepts; window negotiation is min(proposed, own) and one burst asks for exactly actualWindowSize consecutive segments (evaluated from the loop, whatever its spelling). Header allowance and window range checks are known findings. Frame lengths for concrete payloads are not claimed."
+             " Also decided: every accepted I-Am refreshes the peer's limits and the cache on every path; a segmented request starts with no window (None or 1) and a timeout before the first segment-ack repeats a single segment.",
         technique="finite-domain guard evaluation over path enumeration (decision-table extraction) + dataflow of limit sources",
         note=_NOTE),
     "C14": dict(
         text="Heap ownership (who-may-write), key shape with monotone tie-breaker, isScheduled pairing with push/pop/delete on every path, suspend-before-push on re-install, pop only when when<=now (value-set of the guard), "
-             "re-install only for recurring tasks with positive interval, exact-arithmetic evaluation of the next-slot formula extracted per path, per-call isolation and FIFO/batching shape of the deferred queue. Floating-point results and orderings over generated histories are not claimed.",
+             "re-install only for recurring tasks with positive interval, exact-arithmetic evaluation of the next-slot formula extracted per path, per-call isolation and FIFO/batching shape of the deferred queue. Floating-point results and orderings over generated histories are not claimed."
+             " Also decided: every logger used inside an except handler of core.py belongs to a function or class the debugging decorator equips (an undecorated helper would raise inside the handler).",
         technique="who-may-write + path pairing rules + guard value-sets + exact rational evaluation of the extracted formula",
         note=_NOTE),
 })
@@ -57,7 +63,8 @@ CLAIMS.update({
         text="Structural clauses decided for all 13 primitives: each class encodes under and only decodes from its own application tag number (truth table of the decode guard over all classes/numbers), "
              "width/format/byte-order agreement of encode and decode, length guards, two's-complement sign extension and big-endian accumulation (expression tables), the 10+22 object-identifier split on both sides, "
              "the BOOLEAN special case in both tag conversions, no mask reachable by an unrepresentable value (guard value-sets), injectivity of all ~90 enumerations and bit-name tables, and the shortest-form strip loops "
-             "(which (len, d0, d1) combinations delete the leading octet). Equality of arbitrary values after a round trip (floats, character sets) is a runtime quantity and is not claimed.",
+             "(which (len, d0, d1) combinations delete the leading octet). Equality of arbitrary values after a round trip (floats, character sets) is a runtime quantity and is not claimed."
+             " Also decided: a bit string holds only 0/1 (every element store evaluated over truthy/falsy samples; the constructor's list guard; the decoder's appends).",
         technique="guard value-sets + finite-domain evaluation of codec expressions + table injectivity over the AST",
         note=_NOTE),
     "C02": dict(
@@ -74,12 +81,14 @@ CLAIMS.update({
         note=_NOTE),
     "C08": dict(
         text="NPCI.encode/decode are extracted per branch and compared with clause 6.2.2 over destination kinds x source x message-type classes x flags; forbidden/truncated headers are shown to reach only DecodingError raises; "
-             "each of the twelve message bodies is checked by trace agreement (same order, widths, fields, loop structure, counted routing table with its length octets) and against clause 6.4 widths; the registry is complete and consistent.",
+             "each of the twelve message bodies is checked by trace agreement (same order, widths, fields, loop structure, counted routing table with its length octets) and against clause 6.4 widths; the registry is complete and consistent."
+             " Also decided: every multi-octet read of the decoders goes through PDUData.get_data (bounded, consuming, big endian; shared with C02.R2), so a truncated field raises DecodingError.",
         technique="codec layout extraction + encode/decode trace agreement + reference layout tables",
         note=_NOTE),
     "C09": dict(
         text="BVLCI layout and both length checks (value-sets over declared length vs payload), symbolic octet count of every function's encoder equal to the length expression it declares (constructor and re-computation), "
-             "encode/decode trace agreement incl. table entries and the six-octet address width, pack/unpack_ip_addr format agreement, and the function registry against Annex J.2.",
+             "encode/decode trace agreement incl. table entries and the six-octet address width, pack/unpack_ip_addr format agreement, and the function registry against Annex J.2."
+             " Also decided: every multi-octet read of the decoders goes through PDUData.get_data (bounded, consuming, big endian; shared with C02.R2), so a truncated frame raises DecodingError.",
         technique="codec layout extraction + symbolic octet counting + trace agreement",
         note=_NOTE),
 })
@@ -88,12 +97,14 @@ CLAIMS.update({
     "C06": dict(
         text="Structural necessary conditions of the routing property on NetworkServiceAccessPoint.process_npdu / indication and the service element: every forwarding send is dominated by the hop-count test and the decrement and uses a copy; "
              "no send toward the arrival adapter is reachable (identity guards evaluated); SADR preserved or built from (arrival net, link source); last-hop rewriting; the process/forward decision table extracted per destination kind equals clause 6.5; "
-             "outbound addressing is exhaustive, unknown routes park + Who-Is-Router, I-Am-Router releases parked packets; Who-Is-Router is never answered for a network reached through the asking network; the routing cache the forwarder consults stays coherent (shared with C19.R2/R3). Exactly-once delivery over topologies is not claimed.",
+             "outbound addressing is exhaustive, unknown routes park + Who-Is-Router, I-Am-Router releases parked packets; Who-Is-Router is never answered for a network reached through the asking network; the routing cache the forwarder consults stays coherent (shared with C19.R2/R3). Exactly-once delivery over topologies is not claimed."
+             " Also decided: no adapter is chosen by a router record's own, never renumbered source-network field; Who-Is-Router for a network reached through the asking network is not answered, also when the guards are merged.",
         technique="guard dominance + decision-table extraction by finite-domain guard evaluation + path enumeration",
         note=_NOTE),
     "C13": dict(
         text="The BBMD's forwarding matrix is extracted per inbound function (who gets the packet under which guard, with which originator) and compared with Annex J.4.5; foreign and simple node rules; all four node types test all twelve functions; "
-             "foreign-device table ageing (TTL + grace on every registration path, one-second tick, removal at zero, descending scan) and the foreign node's renewal / tracking (re-armed by every acknowledgement) / unregister timers and the typestate of its registration status (register() leaves every result-ignoring state); each forwarding is reachable for every way the message can arrive. Exactly-once and instants of expiry over layouts are not claimed.",
+             "foreign-device table ageing (TTL + grace on every registration path, one-second tick, removal at zero, descending scan) and the foreign node's renewal / tracking (re-armed by every acknowledgement) / unregister timers and the typestate of its registration status (register() leaves every result-ignoring state); each forwarding is reachable for every way the message can arrive. Exactly-once and instants of expiry over layouts are not claimed."
+             " Also decided: every result 0 from the BBMD, also one that repeats the current status, restarts the expiry tracking (paths with the status store followed).",
         technique="forwarding-matrix extraction from guards and loop structure + exhaustiveness + path rules",
         note=_NOTE),
     "C15": dict(
@@ -113,11 +124,13 @@ CLAIMS.update({
         note=_NOTE),
     "C18": dict(
         text="Every store of a network number and every one-octet station pack in pdu.py is shown dominated by its range test (value sets of the guards, with regex-derived sources known non-negative); fields hashed vs fields compared unconditionally, and the hashed octets are an immutable bytes object owned by the address (never the caller's buffer); "
-             "all typed constructors set all five fields; Address(net, addr) turns exactly a local station / local broadcast into the remote kind on that network and refuses the rest (values followed on every path of the arm); the printer is exhaustive over the six address types; mask/host/subnet/broadcast expressions are evaluated against IPv4 arithmetic for all 33 mask lengths. Print/parse round trips are not claimed.",
+             "all typed constructors set all five fields; Address(net, addr) turns exactly a local station / local broadcast into the remote kind on that network and refuses the rest (values followed on every path of the arm); the printer is exhaustive over the six address types; mask/host/subnet/broadcast expressions are evaluated against IPv4 arithmetic for all 33 mask lengths. Print/parse round trips are not claimed."
+             " Also decided: every pattern the parser matches a text against is anchored at its end.",
         technique="guard value-sets at every sink + field-set comparison + finite-domain expression evaluation",
         note=_NOTE),
     "C19": dict(
-        text="Scope resolution of every function of the package (no unbound global reads); the router map and path index are updated together on every loop path of the mutators, a new record is entered under the keys the map is read with (source network, router address), and a router record disappears only when empty; every path-index key uses the network the router map is indexed by in that call and a path is dropped only for a destination the edited router owns; displacement precedes adoption; renumbering re-keys both indexes; the two learning sites pass (arrival network, link source, networks). Coherence after arbitrary histories is not claimed.",
+        text="Scope resolution of every function of the package (no unbound global reads); the router map and path index are updated together on every loop path of the mutators, a new record is entered under the keys the map is read with (source network, router address), and a router record disappears only when empty; every path-index key uses the network the router map is indexed by in that call and a path is dropped only for a destination the edited router owns; displacement precedes adoption; renumbering re-keys both indexes; the two learning sites pass (arrival network, link source, networks). Coherence after arbitrary histories is not claimed."
+             " Also decided: a router record's own source-network field, which renumbering does not refresh, is not read as a network number.",
         technique="symtable scope resolution + paired-update path rules",
         note=_NOTE),
     "C20": dict(
